@@ -133,6 +133,10 @@ pub fn exec(w: &World, i: usize) -> Result<Vec<u8>, String> {
                 st.ekus = vec![EkuSpec::ServerAuth, EkuSpec::ClientAuth, EkuSpec::CodeSigning, EkuSpec::ServerAuth, EkuSpec::OcspSigning, EkuSpec::ClientAuth];
                 st.key_usages = vec![6, 0, 6, 5];
                 st.sans = vec![SanSpec::Dns("d.example".into()), SanSpec::Dns("d.example".into()), SanSpec::Dns("e.example".into())];
+                // every list-typed field carries a repeated element among several distinct ones
+                st.custom_exts = custom_ext_values().into_iter().find(|(l, _)| l.contains("repeated oid")).unwrap().1;
+                st.crl_dps = vec![vec!["http://a.example/1".into()], vec!["http://b.example/2".into()], vec!["http://a.example/1".into()]];
+                st.nc = Some(NcSpec { permitted: vec![SubtreeSpec::Dns("x.example".into()), SubtreeSpec::Dns("y.example".into()), SubtreeSpec::Dns("x.example".into())], excluded: vec![] });
                 to_params(&st)?.self_signed(&w.key_a).map_err(e)?.der().to_vec()
             }
         })
@@ -311,7 +315,7 @@ pub fn run(prop: &str, tier: &str, replay: Option<&str>) -> i32 {
     }
     // (b) every iteration order of the hash map behind a name
     #[cfg(rustls_rcgen_verif)]
-    {
+    if run::replay().is_none() {
         let sec = Section::new("map-orders", "names of 2, 3 and 4 attributes built under hasher seeds until all 2 / 6 / 24 iteration orders of the underlying map were observed through the accessor; for each order: certificate (subject, issuer, name-constraint base), CSR and CRL must have identical bytes, and names built under different seeds must compare equal");
         let types = [DnTypeSpec::Cn, DnTypeSpec::O, DnTypeSpec::Ou, DnTypeSpec::C];
         let mut orders_seen = serde_json::Map::new();
@@ -380,7 +384,7 @@ pub fn run(prop: &str, tier: &str, replay: Option<&str>) -> i32 {
         rep.add(sec);
     }
     // (c) schedules: shuttle DFS over all interleavings
-    {
+    if run::replay().is_none() {
         let shapes: Vec<(usize, usize)> = if thorough { vec![(3, 2), (2, 3)] } else { vec![(3, 2)] };
         for (threads, per) in shapes {
             let sec = Section::new(&format!("schedules/{}x{}", threads, per), &format!("shuttle DfsScheduler (exhaustive): {} threads x {} operations sharing one Arc<KeyPair> and one Arc<Certificate>, yield between operations; every thread's output equals the sequential reference", threads, per));
@@ -430,8 +434,106 @@ pub fn run(prop: &str, tier: &str, replay: Option<&str>) -> i32 {
             rep.add(sec);
         }
     }
-    // (c2) free-running threads (no scheduler): the same plan on real OS threads; supplementary sampling
+    // (c1) schedules at primitive granularity: a rewritten copy of /repo's rcgen whose synchronisation
+    // primitives are shuttle's (bin/c15s_build.sh), explored by the DFS scheduler in a child process
     {
+        let root = std::env::var("VERIF_ROOT").unwrap_or_else(|_| "/verif".into());
+        let bin = std::path::Path::new(&root).join("harness/target/c15s/release/c15s");
+        let dir = std::path::Path::new(&root).join("out/c15s");
+        let _ = std::fs::create_dir_all(&dir);
+        let sec = Section::new("schedules-primitives", "shuttle DfsScheduler (exhaustive within the stated cap) over plans of 2-3 threads sharing one issuer key, two issuer certificates of that key and one leaf key, on a copy of rcgen in which every std::sync / std::thread / thread_local use is rewritten to shuttle's: every interleaving of every synchronisation operation inside rcgen; each thread's output equals the sequential reference");
+        let run_child = |args: &[&str]| -> Result<serde_json::Value, String> {
+            let out = std::process::Command::new(&bin).args(args).env("VERIF_ROOT", &root).output().map_err(|e| format!("cannot run {}: {}", bin.display(), e))?;
+            let text = String::from_utf8_lossy(&out.stdout).to_string();
+            let line = text.lines().find(|l| l.starts_with("C15S ")).ok_or_else(|| format!("no result line (exit {:?}): {}", out.status.code(), String::from_utf8_lossy(&out.stderr).chars().take(400).collect::<String>()))?;
+            serde_json::from_str(&line[5..]).map_err(|e| format!("bad result line: {}", e))
+        };
+        let judge_replay = |plan: u64, schedule: &str| -> Outcome {
+            let f = dir.join("replay.schedule");
+            let _ = std::fs::write(&f, schedule);
+            let mut out = Outcome::default();
+            match run_child(&["replay", &plan.to_string(), &f.display().to_string()]) {
+                Ok(v) => {
+                    let rs: Vec<String> = v["replay"].as_array().map(|a| a.iter().map(|x| x.as_str().unwrap_or("").to_string()).collect()).unwrap_or_default();
+                    out.transitions = 2;
+                    if rs.len() == 2 && rs[0] == rs[1] && rs[0].starts_with("SCHEDULE-DEPENDENT-OUTPUT") {
+                        out.findings.push(Finding::new("SCHEDULE-DEPENDENT-OUTPUT", "concurrent generation", rs[0].clone()));
+                    } else if rs.iter().any(|r| r.starts_with("SCHEDULE-DEPENDENT-OUTPUT")) {
+                        out.machinery.push(format!("replaying one schedule twice gave different observations: {:?}", rs.iter().map(|r| r.chars().take(120).collect::<String>()).collect::<Vec<_>>()));
+                    } else if rs.iter().any(|r| r != "held") {
+                        println!("  the recorded schedule does not apply to this tree (its synchronisation operations changed): {}", rs[0].chars().take(160).collect::<String>());
+                    }
+                }
+                Err(e) => out.machinery.push(e),
+            }
+            out
+        };
+        if let Some(r) = run::replay() {
+            if r.section == sec.name {
+                let plan = r.case["plan_index"].as_u64().unwrap_or(0);
+                let schedule = r.case["schedule"].as_str().unwrap_or("").to_string();
+                let out = judge_replay(plan, &schedule);
+                println!("REPLAY case [plan {} under the recorded schedule]", plan);
+                for f in &out.findings {
+                    println!("  violation: {}", f);
+                }
+                if out.findings.is_empty() {
+                    println!("  no violation on this tree");
+                }
+                sec.record(&|| format!("plan {}", plan), &|| r.case.clone(), out);
+            }
+        } else if !bin.exists() {
+            rep.machinery_error(format!("{} missing (bin/c15s_build.sh builds it; bin/check C15 does so)", bin.display()));
+        } else {
+            match run_child(&["explore", tier, &dir.display().to_string()]) {
+                Ok(v) => {
+                    let mut total = 0u64;
+                    let mut capped = Vec::new();
+                    for (pi, p) in v["plans"].as_array().cloned().unwrap_or_default().iter().enumerate() {
+                        let n = p["schedules"].as_u64().unwrap_or(0);
+                        total += n;
+                        let mut out = Outcome::default();
+                        out.transitions = n;
+                        out.digest = fnv(format!("{} {}", pi, n).as_bytes());
+                        if p["capped"].as_bool() == Some(true) {
+                            capped.push(format!("plan {} capped at {} schedules", pi, n));
+                        }
+                        let mut case = serde_json::json!({"plan_index": pi, "plan": p["plan"].clone()});
+                        if let Some(viol) = p["violation"].as_object() {
+                            let sf = viol.get("schedule_file").and_then(|x| x.as_str()).unwrap_or("");
+                            let schedule = std::fs::read_to_string(sf).or_else(|_| std::fs::read_to_string(std::path::Path::new(&root).join(sf))).unwrap_or_default();
+                            case["schedule"] = serde_json::json!(schedule);
+                            // believe it only if it reproduces twice under the recorded schedule
+                            let o2 = judge_replay(pi as u64, &schedule);
+                            if o2.findings.is_empty() && o2.machinery.is_empty() {
+                                out.machinery.push(format!("a divergence found during exploration did not reproduce under its recorded schedule: {}", viol.get("detail").and_then(|x| x.as_str()).unwrap_or("")));
+                            }
+                            out.findings = o2.findings;
+                            out.machinery.extend(o2.machinery);
+                        }
+                        sec.states.fetch_add(n.saturating_sub(1), std::sync::atomic::Ordering::Relaxed);
+                        sec.record(&|| format!("plan {} {}", pi, p["plan"]), &|| case.clone(), out);
+                    }
+                    if capped.is_empty() {
+                        sec.level_done(format!("{} schedules: all interleavings of all plans", total));
+                    } else {
+                        sec.level_done(format!("{} schedules; NOT exhaustive: {}", total, capped.join("; ")));
+                        rep.assume(&format!("schedules-primitives: {}", capped.join("; ")));
+                    }
+                    rep.extra.insert("schedules_primitives".into(), v);
+                }
+                Err(e) => rep.machinery_error(format!("schedules-primitives: {}", e)),
+            }
+            if let Ok(t) = std::fs::read_to_string(std::path::Path::new(&root).join("out/logs/c15s-rewrite.json")) {
+                if let Ok(v) = serde_json::from_str::<serde_json::Value>(&t) {
+                    rep.extra.insert("schedules_primitives_rewrite".into(), v);
+                }
+            }
+        }
+        rep.add(sec);
+    }
+    // (c2) free-running threads (no scheduler): the same plan on real OS threads; supplementary sampling
+    if run::replay().is_none() {
         let sec = Section::new("free-running-threads", "8 OS threads x 40 operations without a controlled scheduler (supplementary: sampling, catches what a cooperative scheduler's hand-offs could hide)");
         let world = Arc::new(world(&zoo));
         let refs = Arc::new(reference.clone());
